@@ -182,4 +182,4 @@ def replay(path, seed):
         print("well-formed:", pw or "yes", "| oracle:", why or "accepts", "| model vs implementation:",
               "agree" if diff is None else f"differ at step {diff[0]}")
         return 1 if (why or diff) else 0
-    return 0
+    return 2   # not a kind of record this function knows how to replay (the driver then re-runs the check)
